@@ -60,15 +60,21 @@ def bisect(
     """
     lower, upper = map(torch.as_tensor, (lower, upper))
 
-    if not (lower < upper).all():
-        raise ValueError("condition lower < upper should be satisfied.")
+    if not (lower <= upper).all():
+        raise ValueError("condition lower <= upper should be satisfied.")
 
-    if (fn(lower) > fn(upper)).all():
-        # If fn is a decreasing function
+    output_lower = fn(lower)
+    is_decreasing = output_lower > fn(upper)
+    if is_decreasing.any():
+        # Where fn is a decreasing function, search the root of -fn instead
+        sign = torch.where(is_decreasing, -1, 1).to(output_lower.dtype)
+
         def mf(inputs: Tensor) -> Tensor:
-            return -fn(inputs)
+            return sign * fn(inputs)
 
-        return bisect(mf, -target, lower, upper, precision=precision, max_iter=max_iter)
+        return bisect(
+            mf, sign * target, lower, upper, precision=precision, max_iter=max_iter
+        )
 
     n_iter = 0
     while torch.max(upper - lower) > precision:
